@@ -108,7 +108,7 @@ func runC04(c *kit.Ctx) {
 			if !ok {
 				return
 			}
-			v := r.Results[0]
+			v := kit.Res(r, 0)
 			if mi, ok := v.(*ssa.MakeInterface); ok {
 				// struct literal wrapping err
 				inner := structFieldStore(mi.X)
